@@ -67,7 +67,7 @@ ValuesB == {Mp(ps) : ps \in {x \in Seqs(PairB, 2) : NoDupKeys(x)}} \cup {Arr(<<>
 \* ---- scope C: scalars
 PreC == {"int","uint","nint","tstr","text","bool","true","false","nil","null","any","float","number"}
 IntsC == {0, 1, 2, 3, 5, -1, -2, -3, 255, 256, 65535, 65536}
-RangesC == {Rng(I(a), I(b), incl) : a \in {-2, 0, 1}, b \in {1, 3, 255}, incl \in BOOLEAN}
+RangesC == {Rng(I(a), I(b), incl) : a \in {-2, 0, 1}, b \in {1, 3, 255}, incl \in BOOLEAN} \cup {Rng(I(-3), I(-1), incl) : incl \in BOOLEAN}
 CtlC == {CtlT("size", Ref("uint"), Lit(I(n))) : n \in {0, 1, 2, 4, 8, 16}} \cup {CtlT("size", Ref("tstr"), Lit(I(n))) : n \in {0, 1, 2}}
         \cup {CtlT(op, Ref(t), Lit(I(n))) : op \in {"lt","le","gt","ge","eq","ne"}, t \in {"int","uint","nint"}, n \in {-2, 0, 2}}
         \cup {CtlT(op, Ref("tstr"), Lit(Tx(A))) : op \in {"eq","ne"}}
